@@ -37,11 +37,11 @@ MUTANTS.append(dict(name="registry-lookup-by-lowercased-name", file='types/resol
 MUTANTS.append(dict(name="cycle-heuristic-loses-item-exemption", file="core/parsing/unified_cycle_detection.py", expect="R2.2",
     old='name.startswith(schema_name) and name != schema_name and not name.endswith("Item")', new='name.startswith(schema_name) and name != schema_name'))
 MUTANTS.append(dict(name="by-name-fallback-ignores-own-kind", file='types/resolvers/schema_resolver.py', expect="R2.11", old='            if target_schema is not schema and not is_other_kind:\n', new="            if target_schema is not schema:\n"))
-MUTANTS.append(dict(name="declared-schema-skipped-by-sanitised-name", file='core/loader/schemas/extractor.py', expect="R2.10", old='        if n not in context.parsed_schemas:\n            _parse_schema(n, nd, context, allow_self_reference=True)\n',
+MUTANTS.append(dict(name="declared-schema-skipped-by-sanitised-name", file='core/loader/schemas/extractor.py', expect="R2.10", old='        if n not in context.parsed_schemas and n not in context.registered_keys_by_raw_name:\n            _parse_schema(n, nd, context, allow_self_reference=True)\n',
     new="        if n not in context.parsed_schemas and NameSanitizer.sanitize_class_name(n) not in context.parsed_schemas:\n            _parse_schema(n, nd, context, allow_self_reference=True)\n"))
 MUTANTS.append(dict(name='alias-decision-forgets-properties', file='visit/model/model_visitor.py', expect='R2.12', old='            and not schema.properties\n            and not is_enum\n', new='            and not is_enum\n'))
 MUTANTS.append(dict(name='oneof-filter-drops-typed-members', file='core/parsing/keywords/one_of_parser.py', expect='R2.13', old='            s.type is None\n            and not s.properties\n', new='            not s.properties\n'))
-MUTANTS.append(dict(name='ref-resolved-by-sanitised-name', file='core/parsing/schema_parser.py', expect='R2.10', old='    if ref_name in context.parsed_schemas and not context.parsed_schemas[ref_name]._max_depth_exceeded_marker:\n', new='    if NameSanitizer.sanitize_class_name(ref_name) in context.parsed_schemas and not context.parsed_schemas[ref_name]._max_depth_exceeded_marker:\n'))
 MUTANTS.append(dict(name="sanitised-key-not-tested-against-declared-names", file='core/parsing/schema_parser.py', expect="R2.14", old="            if registration_key != schema_name and registration_key in context.raw_spec_schemas:\n                registration_key = schema_name\n", new=""))
 MUTANTS.append(dict(name="registration-key-not-recorded-for-raw-name", file='core/parsing/schema_parser.py', expect="R2.15", old="            context.registered_keys_by_raw_name[schema_name] = registration_key\n", new=""))
 MUTANTS.append(dict(name="ref-lookup-bypasses-raw-name-index", file='core/parsing/schema_parser.py', expect="R2.15", old="    parsed_key = context.registered_keys_by_raw_name.get(ref_name, ref_name)\n", new="    parsed_key = ref_name\n"))
+MUTANTS.append(dict(name="ref-resolved-by-sanitised-name", file='core/parsing/schema_parser.py', expect="R2.10", old="    parsed_key = context.registered_keys_by_raw_name.get(ref_name, ref_name)\n", new="    parsed_key = NameSanitizer.sanitize_class_name(ref_name)\n"))
